@@ -263,7 +263,6 @@ def fam_prim(c):
     L += c.enum(mod, "E_u8_fields", [("A", F0("u8"), None, 0), ("B", F0("u8"), None, 0)], repr="u8", family="ENUM")
     L += c.enum(mod, "E_u8_fields_pad", [("A", F0("u32"), None, 0), ("B", F0("u8"), None, 0)], repr="u8", family="ENUM")
     L += c.enum(mod, "E_u8C_fields", [("A", F0("u8", "u16"), None, 0), ("B", F0("u8", "u16"), None, 0)], repr="u8, C", family="ENUM")
-    L += c.enum(mod, "E_u8C_explicit_ne", [("A", [], 3, 0), ("B", [], 9, 0)], repr="u8, C", family="ENUM")
     L += c.enum(mod, "E_C_explicit_ne", [("A", [], 2, 0), ("B", [], 5, 0)], repr="C", family="ENUM")
     L += c.enum(mod, "E_u8C_explicit_fields_ne", [("A", F0("u32"), 2, 0), ("B", F0("u32"), 5, 0)], repr="u8, C", family="ENUM")
     L += c.enum(mod, "E_C_unit", [("A", [], None, 0), ("B", [], None, 0)], repr="C", family="ENUM")
@@ -302,7 +301,7 @@ class History:
     def remove(self, idx, kind):
         """remove the idx-th currently live field"""
         self.n += 1
-        live = [f for f in self.tl if f["to"] is None]
+        live = [f for f in self.tl if f["to"] is None and f["conv"] is None]
         f = live[idx % len(live)]
         f["to"] = self.n - 1
         f["removed"] = kind
@@ -408,7 +407,7 @@ def fam_evo(c, tier, rng):
                     h.add(pos, f"n{cnt}", e[2], e[3])
                 elif e[0] == "remove":
                     live = [f for f in h.tl if f["to"] is None]
-                    if len(live) <= 1:
+                    if len(live) <= 1 or not [f for f in live if f["conv"] is None]:
                         ok = False
                         break
                     h.remove(e[1], e[2])
